@@ -534,6 +534,112 @@ Definition read_record (schema : list fkind) (t : text)
       end
   end.
 
+(* ------------------------------------------------------------------ per-type schemas (T1: type_schemas) *)
+
+(* writer kinds: 1 u8, 2 u16, 3 u32 (also Serial, Ttl, Timestamp), 4 name, 5 quoted char-string,
+   6 Base16, 7 Base64, 8 word (address, type mnemonic), 9 char-strings to the end.
+   reader kinds: 1..5 alike, 6 Base16 to the end of the entry, 7 Base64 to the end, 8 scan_octets
+   (then FromStr), 9 scan_charstr_entry, 10 Timestamp::scan, 13 decimal enum, 14 Rtype::scan *)
+Definition schema := (N * (bool * (list (N * (N * list N)) * list N)))%type.
+Definition s_code (e : schema) : N := fst e.
+Definition s_block (e : schema) : bool := fst (snd e).
+Definition s_wfields (e : schema) : list (N * (N * list N)) := fst (snd (snd e)).
+Definition s_rkinds (e : schema) : list N := snd (snd (snd e)).
+
+(* writer kind and reader kind of the same field agree *)
+Definition compat (w r : N) : bool :=
+  match w, r with
+  | 1, 1 | 2, 2 | 3, 3 | 4, 4 | 5, 5 | 6, 6 | 7, 7 | 8, 8 | 9, 9 => true
+  | 3, 10 => true          (* Timestamp: written as a u32 in decimal, read by Timestamp::scan (<= 10 digits: u32) *)
+  | 1, 13 => true          (* decimal enum: written as u8, read by FromStr = decimal u8 *)
+  | 8, 14 => true          (* type mnemonic / TYPEnnn *)
+  | _, _ => false
+  end.
+
+(* the field kind of the model for a reader kind *)
+Definition fkind_of (r : N) : option fkind :=
+  match r with
+  | 1 | 13 => Some (FUint 255)
+  | 2 => Some (FUint 65535)
+  | 3 | 10 => Some (FUint 4294967295)
+  | 4 => Some FName
+  | 5 => Some FCharstr
+  | 6 | 7 => Some FRest
+  | 8 | 14 => Some FWord
+  | 9 => Some FCharstrs
+  | _ => None
+  end.
+
+Fixpoint opt_map {A B} (f : A -> option B) (l : list A) : option (list B) :=
+  match l with
+  | [] => Some []
+  | x :: r => match f x, opt_map f r with Some y, Some ys => Some (y :: ys) | _, _ => None end
+  end.
+
+Definition schema_kinds (e : schema) : option (list fkind) := opt_map fkind_of (s_rkinds e).
+
+Fixpoint compat_all (ws : list (N * (N * list N))) (rs : list N) : bool :=
+  match ws, rs with
+  | [], [] => true
+  | w :: wr, r :: rr =>
+      compat (fst w) r && compat_all wr rr &&
+      (* a field that reads to the end of the entry is the last one *)
+      (match r with 6 | 7 | 9 => match rr with [] => true | _ => false end | _ => true end)
+  | _, _ => false
+  end.
+
+Definition schema_ok (e : schema) : bool :=
+  compat_all (s_wfields e) (s_rkinds e) &&
+  match schema_kinds e with Some _ => true | None => false end &&
+  forallb (fun w => negb (mem ch_lf (snd (snd w)))) (s_wfields e) &&
+  (s_code e <? 65536).
+
+Fixpoint find_schema (l : list schema) (code : N) : option schema :=
+  match l with [] => None | e :: r => if s_code e =? code then Some e else find_schema r code end.
+
+Definition val_matches (k : fkind) (v : fval) : bool :=
+  match k, v with
+  | FUint _, VUint _ | FName, VName _ | FCharstr, VCharstr _ | FWord, VWord _
+  | FCharstrs, VCharstrs _ | FRest, VRest _ => true
+  | _, _ => false
+  end.
+
+Fixpoint vals_match (ks : list fkind) (vs : list fval) : bool :=
+  match ks, vs with
+  | [], [] => true
+  | k :: kr, v :: vr => val_matches k v && vals_match kr vr
+  | _, _ => false
+  end.
+
+(* the comment of a field: static text, or (dynamic) a text supplied by the caller *)
+Fixpoint with_comments (ws : list (N * (N * list N))) (vs : list fval) : list (fval * option text) :=
+  match ws, vs with
+  | w :: wr, v :: vr =>
+      (v, match fst (snd w) with 0 => None | _ => Some (snd (snd w)) end) :: with_comments wr vr
+  | _, _ => []
+  end.
+
+Definition typed_record (e : schema) (owner : list bytes) (ttl cl : N) (vs : list fval) : record :=
+  mk_record owner ttl cl (s_code e) (s_block e) (with_comments (s_wfields e) vs).
+
+(* correspondence entry point: the record of type [code] with the given field values, written
+   in kind [k] with the schema extracted from the type's ZonefileFmt impl, and read back with the
+   schema extracted from its scan function *)
+Definition c06_rec (k code : N) (owner : list bytes) (ttl cl : N) (vs : list fval)
+  : outcome (text * outcome (list bytes * N * N * N * list fval)) :=
+  match find_schema type_schemas code with
+  | None => Err E_entry
+  | Some e =>
+      match schema_kinds e with
+      | None => Err E_entry
+      | Some ks =>
+          if negb (vals_match ks vs) then Err E_tokens else
+          do t <- show_record (if k =? 0 then KSimple else if k =? 1 then KTabbed else KMulti)
+                              (typed_record e owner ttl cl vs);
+          Ok (t, read_record ks t)
+      end
+  end.
+
 (* ------------------------------------------------------------------ RFC 3597 generic form *)
 
 (* UnknownRecordData's ZonefileFmt: ONE write_token call whose text contains blanks *)
